@@ -6,8 +6,8 @@
 EXTENDS WireOut, Json, IOUtils, TLC
 
 Rec == ndJsonDeserialize(IOEnv.TRACE)
-VARIABLES l, scn, logs, closed, ok, why
-vars == <<l, scn, logs, closed, ok, why>>
+VARIABLES l, scn, wt, logs, closed, ok, why
+vars == <<l, scn, wt, logs, closed, ok, why>>
 E == Rec[l]
 
 \* logs: sequence of [net, sid, bytes, fin, reset]
@@ -19,30 +19,33 @@ IsUni(sid) == (sid \div 2) % 2 = 1
 StreamOk(s) ==
     IF IsUni(s.sid) THEN ValidUni(s.bytes, s.fin /\ ~s.reset, TRUE)
     ELSE IF s.bytes = <<>> THEN TRUE                        \* nothing written (e.g. refused before the head)
+    \* a WebTransport bidirectional stream (signal value 0x41 as a two-byte varint, then the session id): its payload is the application's
+    ELSE IF wt /\ Len(s.bytes) >= 2 /\ s.bytes[1] = 64 /\ s.bytes[2] = 65 THEN TRUE
     ELSE ValidRequestStream(s.bytes, s.fin /\ ~s.reset)
 Check == \A i \in DOMAIN logs : StreamOk(logs[i])
 FirstBad == IF Check THEN <<"">> ELSE LET i == CHOOSE j \in DOMAIN logs : ~StreamOk(logs[j]) IN <<"stream", logs[i].net, logs[i].sid>>
 
-Init == l = 1 /\ scn = "" /\ logs = <<>> /\ closed = -1 /\ ok = TRUE /\ why = <<"">>
-Reset == E.ev = "reset" /\ scn' = E.scn /\ logs' = <<>> /\ closed' = -1 /\ ok' = TRUE /\ why' = <<"">>
+Init == l = 1 /\ scn = "" /\ wt = FALSE /\ logs = <<>> /\ closed = -1 /\ ok = TRUE /\ why = <<"">>
+Reset == E.ev = "reset" /\ scn' = E.scn /\ wt' = E.wt /\ logs' = <<>> /\ closed' = -1 /\ ok' = TRUE /\ why' = <<"">>
 Wrote == /\ E.ev = "wrote"
          /\ LET ls == With(E.net, E.sid) i == Idx(ls, E.net, E.sid) IN logs' = [ls EXCEPT ![i].bytes = @ \o E.bytes]
-         /\ UNCHANGED <<scn, closed, ok, why>>
+         /\ UNCHANGED <<scn, wt, closed, ok, why>>
+\* a FIN after the connection was closed reaches nobody (an application that calls finish() after a connection error)
 Fin == /\ E.ev = "h3_fin"
-       /\ LET ls == With(E.net, E.sid) i == Idx(ls, E.net, E.sid) IN logs' = [ls EXCEPT ![i].fin = TRUE]
-       /\ UNCHANGED <<scn, closed, ok, why>>
+       /\ LET ls == With(E.net, E.sid) i == Idx(ls, E.net, E.sid) IN logs' = [ls EXCEPT ![i].fin = (@ \/ closed = -1)]
+       /\ UNCHANGED <<scn, wt, closed, ok, why>>
 Rst == /\ E.ev = "h3_reset"
        /\ LET ls == With(E.net, E.sid) i == Idx(ls, E.net, E.sid) IN logs' = [ls EXCEPT ![i].reset = TRUE]
-       /\ UNCHANGED <<scn, closed, ok, why>>
-Close == E.ev = "h3_close" /\ closed' = (IF closed = -1 THEN E.code ELSE closed) /\ UNCHANGED <<scn, logs, ok, why>>
+       /\ UNCHANGED <<scn, wt, closed, ok, why>>
+Close == E.ev = "h3_close" /\ closed' = (IF closed = -1 THEN E.code ELSE closed) /\ UNCHANGED <<scn, wt, logs, ok, why>>
 Bad == /\ E.ev \in {"panic", "late", "livelock", "harness_panic"}
-       /\ ok' = FALSE /\ why' = (IF ok THEN <<"event", E.ev>> ELSE why) /\ UNCHANGED <<scn, logs, closed>>
+       /\ ok' = FALSE /\ why' = (IF ok THEN <<"event", E.ev>> ELSE why) /\ UNCHANGED <<scn, wt, logs, closed>>
 Quiesce == /\ E.ev = "quiesce"
            /\ LET good == Check okk == ok /\ good w == IF ok /\ ~good THEN FirstBad ELSE why
               IN ok' = okk /\ why' = w /\ (IF okk THEN TRUE ELSE PrintT(<<"REJECT", scn, ToJson(w)>>))
-           /\ UNCHANGED <<scn, logs, closed>>
+           /\ UNCHANGED <<scn, wt, logs, closed>>
 Other == /\ ~(E.ev \in {"reset", "wrote", "h3_fin", "h3_reset", "h3_close", "panic", "late", "livelock", "harness_panic", "quiesce"})
-         /\ UNCHANGED <<scn, logs, closed, ok, why>>
+         /\ UNCHANGED <<scn, wt, logs, closed, ok, why>>
 Next == l <= Len(Rec) /\ l' = l + 1 /\ (Reset \/ Wrote \/ Fin \/ Rst \/ Close \/ Bad \/ Quiesce \/ Other)
 Spec == Init /\ [][Next]_vars
 TraceAccepted == TLCGet("stats").diameter - 1 = Len(Rec)
